@@ -72,7 +72,7 @@ def main():
     if os.environ.get('SEED_MERGE') and os.path.exists(os.path.join('/verif/seeded', name, 'meta.json')):
         # further checks against an already evaluated change: keep the earlier results
         old = json.load(open(os.path.join('/verif/seeded', name, 'meta.json')))
-        merged = dict(old.get('results', {})); merged.update(results); results = merged
+        merged = {k: v for k, v in old.get('results', {}).items() if k.split('/')[0] not in checks}; merged.update(results); results = merged
         meta['checks_run'] = sorted(set(old.get('checks_run', [])) | set(checks))
     meta['results'] = results
     caught = [k for k, v in results.items() if v['exit'] == 1]
